@@ -1506,45 +1506,73 @@ func ruleFixPrologue(r *Run, rule, key string) {
 	if fn == nil {
 		return
 	}
-	_, paths, ok := r.flowPaths(rule, fn)
+	fl, paths, ok := r.flowPaths(rule, fn)
 	if !ok {
 		return
 	}
-	paths = OwnOnly(paths) // the guard is a matter of the function's own first statements
-	bad := ""
-	guarded := 0
-	for i := range paths {
-		p := &paths[i]
-		running := false
-		for _, e := range p.Ev {
-			if e.Kind == EvBranch && e.Cond != nil && strings.HasSuffix(ExprStr(e.Cond), ".State.Status != workflow.Running") {
-				if e.Taken {
-					guarded++
-					// must return at once with no write
-					running = false
-					continue
-				}
-				running = true
-			}
-			if running {
-				continue
-			}
-			switch e.Kind {
-			case EvAssign:
-				for _, l := range e.Lhs {
-					if _, isSel := ast.Unparen(l).(*ast.SelectorExpr); isSel && bad == "" {
-						bad = "a field (" + ExprStr(l) + ") is written before the `Status != Running ⇒ return` guard"
-					}
-				}
-			case EvCall:
-				if k := CalleeKey(e); strings.HasPrefix(k, pkgSM+".") && k != pkgSM+".checksCompleted" && k != pkgSM+".checksFailed" && bad == "" {
-					bad = "a helper (" + ShortFn(k) + ") is called before the `Status != Running ⇒ return` guard"
-				}
+	paths = fl.OwnOnly(paths) // the function and the pieces it was split into; shared helpers are judged themselves
+	info := fl.Info
+	// the subject: the parameter holding the workflow object being fixed
+	var subj types.Object
+	for _, f := range fn.Decl.Type.Params.List {
+		for _, nm := range f.Names {
+			if o := info.ObjectOf(nm); o != nil && workflowObjTypes[ShortType(o.Type())] {
+				subj = o
 			}
 		}
 	}
-	if guarded == 0 && bad == "" {
-		bad = "no `State.Status != workflow.Running ⇒ return` guard: terminal and not-started objects would be rewritten by recovery"
+	if subj == nil {
+		r.Unresolved(rule, key+" subject parameter")
+		return
 	}
-	r.Check(rule, "fix-prologue:"+ShortFn(key), fn.Decl.Pos(), bad == "", "%s", orOK(bad, "non-Running objects are left untouched"))
+	// Nothing may be changed when the subject is not Running: assume it is not, and no path may reach a change.
+	atom := func(e ast.Expr) (string, bool, bool) {
+		isSubjStatus := func(x ast.Expr) bool {
+			base, m := FieldPath(info, x, "", "State", "Status")
+			return m && ObjOf(info, base) == subj
+		}
+		if neg, ok := EqAtom(info, e, isSubjStatus, "workflow.Running"); ok {
+			return "subject-running", neg, true
+		}
+		return "", false, false
+	}
+	bad := ""
+	var bpos = fn.Decl.Pos()
+	guarded := false
+	for i := range paths {
+		p := &paths[i]
+		for j, e := range p.Ev {
+			what := ""
+			switch e.Kind {
+			case EvBranch:
+				if e.Cond != nil {
+					if _, _, isAtom := atom(ast.Unparen(e.Cond)); isAtom {
+						guarded = true
+					}
+					if e.Tag != nil {
+						if _, _, isAtom := atom(&ast.BinaryExpr{X: e.Tag, Op: token.EQL, Y: e.Cond}); isAtom {
+							guarded = true
+						}
+					}
+				}
+			case EvAssign:
+				for _, l := range e.Lhs {
+					if _, isSel := ast.Unparen(l).(*ast.SelectorExpr); isSel {
+						what = "a field (" + ExprStr(l) + ") is written"
+					}
+				}
+			case EvCall:
+				if k := CalleeKey(e); strings.HasPrefix(k, pkgSM+".") && k != pkgSM+".checksCompleted" && k != pkgSM+".checksFailed" && k != pkgSM+".isCompleted" && !e.Inlined {
+					what = "a helper (" + ShortFn(k) + ") is called"
+				}
+			}
+			if what != "" && bad == "" && !PathRefutedRange(fl, p, 0, j, map[string]bool{"subject-running": false}, atom) {
+				bad, bpos = what+" on a path that is possible when the object is not Running (no `Status != Running ⇒ return` guard dominates it)", e.Pos
+			}
+		}
+	}
+	if !guarded && bad == "" {
+		bad = "no test of the subject's `State.Status` against workflow.Running: terminal and not-started objects would be rewritten by recovery"
+	}
+	r.Check(rule, "fix-prologue:"+ShortFn(key), bpos, bad == "", "%s", orOK(bad, "non-Running objects are left untouched"))
 }
